@@ -404,7 +404,7 @@ def g_e2e_case(rng, maxlen, want=None):
 
 
 def gen_cases(rng, tier):
-    n_ser, n_cl, n_e2e, maxlen, depth = (2500, 1500, 150, 8, 4) if tier == "quick" else (60000, 40000, 4000, 25, 5)
+    n_ser, n_cl, n_e2e, maxlen, depth = (6000, 4000, 400, 8, 4) if tier == "quick" else (60000, 40000, 3000, 25, 5)
     cases = [g_ser_case(rng, rng.randrange(1, depth + 1)) for _ in range(n_ser)]
     cases += [g_cleanup_case(rng) for _ in range(n_cl)]
     for i in range(n_e2e):
@@ -420,7 +420,7 @@ def gen_cases(rng, tier):
             want = "alias"
         elif r < 0.09:
             want = "cycle"
-        ml = maxlen if tier == "quick" else rng.choice([8, 12, 25])
+        ml = maxlen if tier == "quick" else rng.choice([8, 8, 12, 12, 25])
         cases.append(g_e2e_case(rng, ml, want))
     return cases
 
